@@ -371,7 +371,13 @@ namespace {
       const std::string before = shape_str(e);
       std::string out;
       try {
-        out = "=" + show(e.eval(scripts[c]), &e);
+        // the host enters through eval(), eval<int>() or eval<std::string>() (the typed forms convert the
+        // result and can fail with bad_boxed_cast after the evaluation itself succeeded)
+        switch (plan.at("entry").num(0)) {
+        case 1: out = "=int:" + std::to_string(e.eval<int>(scripts[c])); break;
+        case 2: out = "=string:" + e.eval<std::string>(scripts[c]); break;
+        default: out = "=" + show(e.eval(scripts[c]), &e); break;
+        }
       } catch (const UserExc &) {
         out = "!user_class";
       } catch (...) {
@@ -439,6 +445,7 @@ namespace {
       const bool thorough = tier == "thorough";
       J p = gen_program(plan, thorough);
       p["on_worker"] = J(plan.chance(500));
+      p["entry"] = J(int(plan.chance(600) ? 0 : plan.range(1, 2)));
       // which exception kinds are enumerated (all in thorough; a seeded subset of 4 in quick)
       J &kinds = p["kinds"];
       kinds = J::array();
